@@ -4,6 +4,7 @@ package rules
 
 import (
 	"fmt"
+	"go/token"
 	"go/types"
 	"sort"
 	"strings"
@@ -65,6 +66,8 @@ type Ctx struct {
 
 	Exemptions map[string]string // obligation key -> reason (from exemptions.json)
 	Scoped     []ScopedExemption // exemptions that name a construct within a scope instead of one function
+	aliasCache map[string]map[string]bool
+	aliasFns   map[*ssa.Function]map[int]bool
 	exclCache  map[string]map[string]bool
 
 	errDrop, errHandle *Result
@@ -73,12 +76,14 @@ type Ctx struct {
 	errHandleKey       map[ssa.Instruction]string
 
 	live      map[*ssa.Function]bool // functions some command can reach
-	borrowFns map[*ssa.Function]int // repository functions that return a slice of a reader passed in (parameter index)
+	borrowFns map[*ssa.Function]int  // repository functions that return a slice of a reader passed in (parameter index)
 }
 
 func NewCtx(p *load.Program) *Ctx {
 	c := &Ctx{P: p}
 	c.initSentinels()
+	c.initFuncVars()
+	stdStreamHook = c.stdStreamThrough
 	return c
 }
 
@@ -209,7 +214,14 @@ func (c *Ctx) ExemptReason(rule, key string) (string, bool) {
 		construct = construct[:i]
 	}
 	for _, e := range c.Scoped {
-		if e.Rule != rule || e.Construct != construct {
+		if e.Rule != rule {
+			continue
+		}
+		if strings.HasPrefix(e.Construct, "@") {
+			if !c.aliasSet(e.Construct)[construct] {
+				continue
+			}
+		} else if e.Construct != construct {
 			continue
 		}
 		switch {
@@ -226,6 +238,43 @@ func (c *Ctx) ExemptReason(rule, key string) (string, bool) {
 		}
 	}
 	return "", false
+}
+
+// aliasSet resolves a construct named by what it does instead of by its identifier, so that the
+// exemption follows the function through a rename:
+//
+//	@rule-id-resolver  the functions that match regex.RuleIdFileNameRegex against their argument
+func (c *Ctx) aliasSet(alias string) map[string]bool {
+	if c.aliasCache == nil {
+		c.aliasCache = map[string]map[string]bool{}
+	}
+	if m, ok := c.aliasCache[alias]; ok {
+		return m
+	}
+	m := map[string]bool{}
+	switch alias {
+	case "@rule-id-resolver":
+		for _, s := range c.submatchSites() {
+			if s.pattern == nil || s.pattern.Name != "regex.RuleIdFileNameRegex" || s.fn == nil {
+				continue
+			}
+			add := func(fn *ssa.Function) {
+				if o, ok := fn.Object().(*types.Func); ok {
+					m[qualName(o)] = true
+				}
+				m[load.FnName(fn)] = true
+			}
+			add(s.fn)
+			// and the functions of the same package that resolve an argument by calling it
+			for _, e := range c.Graph().In[s.fn] {
+				if cc := callCommon(e.Site); cc != nil && staticFn(cc) == s.fn && e.Caller.Pkg == s.fn.Pkg && e.Caller.Parent() == nil {
+					add(e.Caller)
+				}
+			}
+		}
+	}
+	c.aliasCache[alias] = m
+	return m
 }
 
 // exclusiveTo: names of the functions reachable from the entries of command
@@ -248,4 +297,203 @@ func (c *Ctx) exclusiveTo(name string) map[string]bool {
 	}
 	c.exclCache[name] = mine
 	return mine
+}
+
+// initFuncVars records the package-level function variables of the repository
+// that have a single store, in a package initialiser, of a named function.
+func (c *Ctx) initFuncVars() {
+	for k := range funcVarTargets {
+		delete(funcVarTargets, k)
+	}
+	stores := map[*ssa.Global][]*ssa.Store{}
+	inInit := map[*ssa.Store]bool{}
+	addrTaken := map[*ssa.Global]bool{}
+	for _, fn := range c.P.RepoFns {
+		for _, b := range fn.Blocks {
+			for _, in := range b.Instrs {
+				if st, ok := in.(*ssa.Store); ok {
+					if g, ok := st.Addr.(*ssa.Global); ok {
+						if _, isSig := derefType(g.Type()).Underlying().(*types.Signature); isSig {
+							stores[g] = append(stores[g], st)
+							inInit[st] = fn.Name() == "init"
+						}
+					}
+					continue
+				}
+				// the address handed to something else: could be assigned through it
+				for _, op := range in.Operands(nil) {
+					if op == nil || *op == nil {
+						continue
+					}
+					if g, ok := (*op).(*ssa.Global); ok {
+						if u, isLoad := in.(*ssa.UnOp); isLoad && u.X == ssa.Value(g) {
+							continue
+						}
+						addrTaken[g] = true
+					}
+				}
+			}
+		}
+	}
+	for g, sts := range stores {
+		if len(sts) != 1 || !inInit[sts[0]] || addrTaken[g] || g.Pkg == nil || !load.InModule(g.Pkg.Pkg.Path()) {
+			continue
+		}
+		switch v := sts[0].Val.(type) {
+		case *ssa.Function:
+			funcVarTargets[g] = v
+		case *ssa.MakeClosure:
+			if fn, ok := v.Fn.(*ssa.Function); ok && len(v.Bindings) == 0 {
+				funcVarTargets[g] = fn
+			}
+		}
+	}
+}
+
+// stdStreamThrough: the io.Writer v is a standard stream because (a) it is a
+// parameter and every caller passes one, (b) it is a phi of such values, or
+// (c) it is what a helper of the repository returns, every result of which is
+// one, or the value of a field that nothing in the (non-test) program assigns
+// (an injectable output that defaults to os.Stdout when unset).
+func (c *Ctx) stdStreamThrough(v ssa.Value, depth int) bool {
+	switch x := v.(type) {
+	case *ssa.Parameter:
+		fn := x.Parent()
+		pi := paramIndex(fn, x)
+		n := 0
+		for _, e := range c.Graph().In[fn] {
+			cc := callCommon(e.Site)
+			if cc == nil || staticFn(cc) != fn || pi < 0 || pi >= len(cc.Args) {
+				continue
+			}
+			n++
+			if !isStdStreamWriterDepth(cc.Args[pi], depth+1) {
+				return false
+			}
+		}
+		return n > 0
+	case *ssa.Phi:
+		for _, e := range x.Edges {
+			if e == ssa.Value(x) {
+				continue
+			}
+			if !isStdStreamWriterDepth(e, depth+1) {
+				return false
+			}
+		}
+		return len(x.Edges) > 0
+	case *ssa.FreeVar:
+		if bv := closureBinding(x); bv != nil {
+			return isStdStreamWriterDepth(bv, depth+1)
+		}
+		return false
+	case *ssa.UnOp:
+		// a package-level writer of the repository that only its initialiser assigns (var stdout io.Writer = os.Stdout)
+		if g, ok := x.X.(*ssa.Global); ok && x.Op == token.MUL && g.Pkg != nil && load.InModule(g.Pkg.Pkg.Path()) {
+			n, all := 0, true
+			for _, fn := range c.P.RepoFns {
+				allInstrs(fn, func(in ssa.Instruction) {
+					if st, ok := in.(*ssa.Store); ok && st.Addr == ssa.Value(g) {
+						n++
+						if fn.Name() != "init" || !isStdStreamWriterDepth(st.Val, depth+1) {
+							all = false
+						}
+					}
+				})
+			}
+			return n > 0 && all
+		}
+		// a field that is only ever assigned a standard stream (an injectable output with its default)
+		if fa, ok := x.X.(*ssa.FieldAddr); ok && x.Op == token.MUL {
+			stores, _ := c.fieldAccesses(fieldVarOf(fa))
+			if len(stores) > 0 {
+				for _, st := range stores {
+					if !isStdStreamWriterDepth(st.Val, depth+1) {
+						return false
+					}
+				}
+				return true
+			}
+		}
+		// a local variable kept in a cell (it is captured by a closure): every value stored into it
+		if al, ok := x.X.(*ssa.Alloc); ok && x.Op == token.MUL {
+			n, all := 0, true
+			for _, r := range referrers(al) {
+				if st, ok := r.(*ssa.Store); ok && st.Addr == ssa.Value(al) {
+					n++
+					if !isStdStreamWriterDepth(st.Val, depth+1) {
+						all = false
+					}
+				}
+			}
+			return n > 0 && all
+		}
+		// a captured variable (the closure holds the address of the variable's cell)
+		if fv, ok := x.X.(*ssa.FreeVar); ok && x.Op == token.MUL {
+			if bv := closureBinding(fv); bv != nil {
+				if al, ok := bv.(*ssa.Alloc); ok {
+					n, all := 0, true
+					for _, r := range referrers(al) {
+						if st, ok := r.(*ssa.Store); ok && st.Addr == ssa.Value(al) {
+							n++
+							if !isStdStreamWriterDepth(st.Val, depth+1) {
+								all = false
+							}
+						}
+					}
+					return n > 0 && all
+				}
+			}
+		}
+		return false
+	case *ssa.Call:
+		sf := staticFn(&x.Call)
+		if sf == nil || !c.P.IsRepoFn(sf) || len(sf.Blocks) == 0 {
+			return false
+		}
+		n, all := 0, true
+		allInstrs(sf, func(in ssa.Instruction) {
+			r, ok := in.(*ssa.Return)
+			if !ok || len(r.Results) != 1 {
+				return
+			}
+			n++
+			rv := stripConv(r.Results[0])
+			if isStdStreamWriterDepth(rv, depth+1) {
+				return
+			}
+			// a field nothing assigns: on that path the value is nil and the guard around it is dead
+			if ld, ok := rv.(*ssa.UnOp); ok {
+				if fa, ok := ld.X.(*ssa.FieldAddr); ok {
+					if stores, _ := c.fieldAccesses(fieldVarOf(fa)); len(stores) == 0 {
+						return
+					}
+				}
+			}
+			all = false
+		})
+		return n > 0 && all
+	}
+	return false
+}
+
+// closureBinding: the value bound to the free variable where its closure is made.
+func closureBinding(fv *ssa.FreeVar) ssa.Value {
+	fn := fv.Parent()
+	if fn == nil || fn.Parent() == nil {
+		return nil
+	}
+	idx := -1
+	for i, f := range fn.FreeVars {
+		if f == fv {
+			idx = i
+		}
+	}
+	var out ssa.Value
+	allInstrs(fn.Parent(), func(in ssa.Instruction) {
+		if mc, ok := in.(*ssa.MakeClosure); ok && mc.Fn == ssa.Value(fn) && idx >= 0 && idx < len(mc.Bindings) && out == nil {
+			out = mc.Bindings[idx]
+		}
+	})
+	return out
 }
